@@ -89,7 +89,7 @@ template <class TR> struct ConvexChain {
         if (m.empty) continue;
         b.empty = false; b.affdim = m.affdim; b.lindim = lineality_dim(n, S);
         D c1(d), c2(d);
-        Sys mc = ref::conv(c1.minimized_constraints(), n); Gens mg = ref::conv(c2.minimized_generators(), n);
+        Sys mc = ref::conv(c1.minimized_constraints(), n); Gens mg = TR::min_gens(c2);
         // the descriptions used are first verified to denote the observed set
         std::string why; Vec wit;
         if (!sys_equal(n, mc, S) || !ref::gens_satisfy(n, mg, S, &why) || ref::cons_in_hull(n, S, mg, &wit, &why) == 0) { txt = "minimized descriptions do not denote the observed set"; return -2; }
@@ -181,6 +181,11 @@ template <class TR> struct ConvexChain {
       std::ostringstream t; t << " | lim=x; lim." << lname << "(y, {"; for (size_t i = 0; i < cv.size(); ++i) t << (i ? ", " : "") << str(cv[i]); t << "}";
       unsigned t0 = coin(25) ? rnd(1, 2) : 0, tp = t0; bool with_tp = coin(40);
       if (with_tp) t << ", tp=" << t0; t << ")"; tr(t.str());
+      if (TR::fragile_limiting(cv)) {
+        hx::count("isolated_calls");
+        bool alive = survives([&]() { D a(xl), b(yl); unsigned t = t0; if (lb) op.bnd(a, b, cs, with_tp ? &t : 0); else op.lim(a, b, cs, with_tp ? &t : 0); });
+        if (!alive) { violation(key("crash", lname, ":variable-free-limiting-constraint"), "the call dies (sanitizer report or signal) in an isolated child process; x=" + show(SX) + " y=" + show(SY)); continue; }
+      }
       if (lb) op.bnd(xl, yl, cs, with_tp ? &tp : 0); else op.lim(xl, yl, cs, with_tp ? &tp : 0);
       Sys SL = obs(xl); hx::count("limited_checks"); hx::count("op." + lname); checked(3);
       if (!sys_included(n, SX, SL, &wit)) { violation(key("limited", lname, ".below_argument"), "point " + show(wit) + " of the larger argument is not in the result " + show(SL) + "; x=" + show(SX) + " y=" + show(SY)); return false; }
